@@ -11,6 +11,7 @@ import (
 type vScripted struct {
 	vFakeTransport
 	replies [][]byte
+	dyn     func(req []byte) []byte // if set: computes each reply from the request (no draws)
 }
 
 func (t *vScripted) Send(ctx context.Context, b []byte) ([]byte, error) {
@@ -18,6 +19,13 @@ func (t *vScripted) Send(ctx context.Context, b []byte) ([]byte, error) {
 	cp := make([]byte, len(b))
 	copy(cp, b)
 	t.sent = append(t.sent, cp)
+	if t.dyn != nil {
+		r := t.dyn(cp)
+		if r == nil {
+			return nil, vErrLost
+		}
+		return r[:len(r):len(r)], nil
+	}
 	if i >= len(t.replies) {
 		return nil, vErrLost
 	}
@@ -34,13 +42,15 @@ type vC19Conn struct {
 	run  func()
 	code ipmi.CompletionCode
 	err  error
+	want int // datagrams the workload sends when run alone
 }
 
 // vC19Workload prepares, with all inputs drawn in advance, one of: a session-less
 // command answered after a busy reply; an in-session command answered after a busy reply;
-// a complete session handshake followed by a command.
+// an SDR repository walk; cipher suite discovery with the default preferences; a complete
+// session handshake.
 func vC19Workload(kind int) *vC19Conn {
-	c := &vC19Conn{t: &vScripted{}}
+	c := &vC19Conn{t: &vScripted{}, want: 2}
 	busy := func(cc byte, body []byte) []byte { return append([]byte{cc}, body...) }
 	switch kind {
 	case 0:
@@ -67,6 +77,43 @@ func vC19Workload(kind int) *vC19Conn {
 		// SDR repository walk over a prepared reference repository
 		repo := &refSDRRepo{records: vRecords(1, false), reservation: vU16(), lastAdd: vU32(), lastErase: vU32()}
 		c.run = func() { _, c.err = RetrieveSDRRepository(context.Background(), repo) }
+	case 3:
+		// cipher suite discovery with the default preference list against a BMC that
+		// advertises an arbitrary subset of it
+		c.slt = vNewSessionless(&c.t.vFakeTransport)
+		c.slt.V2Sessionless.transport = c.t
+		c.slt.Transport = c.t
+		var data []byte
+		n := 0
+		for i, p := range []ipmi.CipherSuite{ipmi.CipherSuite17, ipmi.CipherSuite3} {
+			if vBool() {
+				data = append(data, 0xC0, byte(i), byte(p.AuthenticationAlgorithm), 0x40|byte(p.IntegrityAlgorithm), 0x80|byte(p.ConfidentialityAlgorithm))
+				n++
+			}
+		}
+		bmc := &refSuiteBMC{data: data}
+		c.t.dyn = bmc.handle
+		c.want = 1
+		c.run = func() {
+			_, c.err = c.slt.determineCipherSuite(context.Background(), nil)
+			if n == 0 && c.err == ErrNoSupportedCipherSuite {
+				c.err = nil
+			}
+		}
+	case 4:
+		// a complete session handshake (explicit suite 3, real console randomness)
+		c.slt = vNewSessionless(&c.t.vFakeTransport)
+		c.slt.V2Sessionless.transport = c.t
+		c.slt.Transport = c.t
+		password := vBytes(4)
+		bmc := &refBMC{password: password, sidC: vU32(), rC: vBytes(16), guid: vBytes(16), useProposal: true}
+		c.t.dyn = bmc.handle
+		c.want = 3
+		c.run = func() {
+			_, c.err = c.slt.NewV2Session(context.Background(), &V2SessionOpts{
+				SessionOpts:  SessionOpts{Password: password, MaxPrivilegeLevel: ipmi.PrivilegeLevelUser},
+				CipherSuites: []ipmi.CipherSuite{ipmi.CipherSuite3}})
+		}
 	}
 	return c
 }
@@ -78,17 +125,17 @@ func vC19Workload(kind int) *vC19Conn {
 // sequential results, and there is no conflicting access, i.e. no data race). In native
 // replay the two workloads run concurrently under the race detector.
 func VerifC19_IndependentConnections() {
-	ka, kb := vChoice(3), vChoice(3)
+	ka, kb := vChoice(5), vChoice(5)
 	a, b := vC19Workload(ka), vC19Workload(kb)
 	vUseRealRand()
 	conflict := vConflicts(a.run, b.run)
 	vAssert(!conflict, "c19-independent-connections-touch-disjoint-state")
 	vAssert(a.err == nil && b.err == nil, "c19-both-workloads-complete")
 	if ka != 2 {
-		vAssert(a.code == ipmi.CompletionCodeNormal && len(a.t.sent) == 2, "c19-workload-a-as-when-run-alone")
+		vAssert(a.code == ipmi.CompletionCodeNormal && len(a.t.sent) == a.want, "c19-workload-a-as-when-run-alone")
 	}
 	if kb != 2 {
-		vAssert(b.code == ipmi.CompletionCodeNormal && len(b.t.sent) == 2, "c19-workload-b-as-when-run-alone")
+		vAssert(b.code == ipmi.CompletionCodeNormal && len(b.t.sent) == b.want, "c19-workload-b-as-when-run-alone")
 	}
 	vReached("end")
 }
